@@ -10,6 +10,11 @@ CHECKS = {
     note=BASE + "the rules of chess are the trusted text Chess/Spec.lean (perft-validated); the algorithms of moveGen.cpp themselves are not modelled (only their outputs are judged, per position); capture/check classes exclude rook/bishop under-promotions (deliberately omitted by the code).",
     technique="Lean 4 proof (spec oracle + acceptor soundness) + per-position acceptance of the real generator's output + exhaustive table comparison",
     design="6/C01"),
+ "C03": dict(
+    text="Lean theorems (Props/C03.lean) about the root bookkeeping with arbitrary sub-search scores and a stop after any step: bestMove/bestExactMove always members of the root move list, at least one root move at reduced strength, searchmoves filter, pairwise distinct multi-PV lines, mate-N formatting; exactness of the PV acceptor (playLine accepts iff the sequence is legal). Partial: that the C++ root loop is an instance of the modelled transition system is by reading; the engine-level tie is the audit of every info/bestmove line of the real binary by the proven chess model, plus extractPVMoves under adversarially planted table contents.",
+    note=BASE + "synthetic evaluation networks (the shipped one is emptied here); search internals not modelled; no 64-bit hash collisions; depth-limited searches are not run at reduced strength (they explode by design).",
+    technique="Lean 4 proof (root bookkeeping invariants, PV acceptor) + audit of the real engine's UCI output by the Lean chess model over positions x limits x options",
+    design="6/C03", category="proof"),
  "C08": dict(
     text="Lean theorems (Props/C08.lean): bucket index aligned and in range for every size >= 512 and every 64-bit key; field layout disjoint and lossless; xor validation makes any validating pair of words bit-identical to one unit record (relaxed-atomic over-approximation); ply shift exact; hash buckets disjoint from the resident-tablebase bytes; insert writes only inside its bucket. The universally quantified part is proved; the tie to the C++ is a differential run.",
     note=BASE + "no 64-bit key/xor coincidences (explicit hypothesis); relaxed atomics modelled as 'a load returns some previously written value of that word'; harness reads private members.",
